@@ -32,6 +32,21 @@ try:
     r = subprocess.run([SNAP + "/scripts/baseline.py"], env=dict(os.environ, VERIF_REPO=wt), stdout=subprocess.PIPE, text=True)
     res["existing_tests"] = r.stdout.strip().split("\n")[0]
     res["existing_tests_pass"] = r.returncode == 0
+    # the demonstration (wave 4 onwards: demo.sh <tree> exits 0 when the property holds): must fail with the change
+    # and pass without it; run on the patched worktree, then on the same worktree with the patch reverted
+    dsh = os.path.join(os.path.abspath(src), "demo.sh")
+    if os.path.exists(dsh):
+        def demo():
+            r = subprocess.run(["bash", dsh, wt], cwd=os.path.abspath(src), env=env, stdout=subprocess.PIPE, stderr=subprocess.STDOUT, text=True, timeout=1800)
+            sh(f"git -C {wt} clean -fdq")   # demo files copied into the tree
+            return r.returncode, r.stdout[-600:]
+        rc1, out1 = demo()
+        sh(f"git -C {wt} apply -R --whitespace=nowarn {os.path.abspath(src)}/patch.diff")
+        rc0, out0 = demo()
+        sh(f"git -C {wt} checkout -- . && git -C {wt} apply --whitespace=nowarn {os.path.abspath(src)}/patch.diff")
+        res["demo"] = {"with_change_exit": rc1, "without_change_exit": rc0, "with_change_tail": out1[-300:], "ok": rc1 != 0 and rc0 == 0}
+        print("demo: with change exit", rc1, "| without change exit", rc0, "->", "OK" if res["demo"]["ok"] else "NOT A VALID DEMONSTRATION")
+        if rc0 != 0: print(out0)
     res["checks"] = {}
     for c in checks:
         t0 = time.time()
